@@ -270,24 +270,31 @@ def sib_escape(p, res):
 # ------------------------------------------------------------------ SIB-POP
 @rule('SIB-HTMLSTACK', 'N', 'HTML entry points pop the open-tag stack only for a closing tag whose name matches the top, and all scan with the special-element table')
 def sib_htmlstack(p, res):
+    from .tablecheck import check_table
+
+    def pop_detector(p, f):
+        """a pop that no test on the name of the stack top guards"""
+        from .. import shape
+        v = shape.View(p, f, inline=False)
+        nm = f.params[0] if f.params else 'name'
+        for n in v.nodes:
+            if isinstance(n, ast.Call) and isinstance(n.func, ast.Attribute) and n.func.attr == 'pop' and src_of(n.func.value) == 'stack':
+                facts = v.facts(n)
+                if not any(pol and ('.name == %s' % nm in fs or '%s == ' % nm in fs and '.name' in fs) for fs, pol in facts):
+                    return n, src_of(v.stmt_of(n)), 'the stack is popped for a closing tag that does not match its top: a stray </x> unbalances every enclosing element (sibling entry points pop only on a name match)'
+        return None
+
+    def push_detector(p, f):
+        from .. import shape
+        v = shape.View(p, f, inline=False)
+        for n in v.nodes:
+            if isinstance(n, ast.Call) and isinstance(n.func, ast.Attribute) and n.func.attr == 'append' and src_of(n.func.value) == 'stack':
+                if any('pos' in fs.replace('(', ' ').replace(')', ' ').split() for fs, _ in v.facts(n, expand_defs=False)):
+                    return n, src_of(v.stmt_of(n)), 'whether an opening tag is pushed depends on the position: its closing tag is still compared with the stack top and pairs with the wrong element'
+        return None
     for fq in ('html_matcher.match.scan_callback', 'html_matcher.balanced_outward.scan_callback', 'html_matcher.balanced_inward.scan_callback'):
-        f = p.func(fq)
-        pops = [n for n in f.body_nodes() if isinstance(n, ast.Call) and src_of(n.func) == 'stack.pop']
-        if not pops:
-            raise AnalysisError('SIB-HTMLSTACK: %s no longer pops the stack' % fq)
-        for n in pops:
-            facts = implied_facts(p, f, n)
-            if ('tag.name == name', True) in facts:
-                res.ok('%s: stack.pop() under tag.name == name' % f.short)
-            else:
-                res.bad(F('SIB-HTMLSTACK', f, n, src_of(p.enclosing_stmt(f, n)), 'the stack is popped for a closing tag that does not match its top: a stray </x> unbalances every enclosing element (sibling entry points pop only on a name match)'))
-        pushes = [n for n in f.body_nodes() if isinstance(n, ast.Call) and src_of(n.func) == 'stack.append']
-        for n in pushes:
-            facts = implied_facts(p, f, n)
-            if any('pos' in fct.split() or 'pos' in fct.replace('(', ' ').replace(')', ' ').split() for fct, _ in facts):
-                res.bad(F('SIB-HTMLSTACK', f, n, src_of(p.enclosing_stmt(f, n)), 'whether an opening tag is pushed depends on the position: its closing tag is still compared with the stack top and pairs with the wrong element'))
-            else:
-                res.ok('%s: every open tag is pushed, independent of pos' % f.short)
+        check_table(p, res, 'SIB-HTMLSTACK', fq, 'open tags are pushed regardless of the position; a closing tag pops the stack only when its name matches the top',
+                    detectors=(pop_detector, push_detector))
     # every scan of the html scanner receives the special table of a ScannerOptions object
     scan = p.func('html_matcher.scan.scan')
     for f, call in callgraph.get(p).callers_of(scan):
@@ -298,7 +305,7 @@ def sib_htmlstack(p, res):
                 res.ok('%s: scan(.., %s)' % (f.short, src_of(a)))
                 continue
         res.bad(F('SIB-HTMLSTACK', f, call, src_of(call), 'the scan runs without the special-element table: markup-like text inside <script>/<style> is reported as tags (sibling entry points pass options.special)'))
-    res.require_floor(12)
+    res.require_floor(8)
 
 
 # -------------------------------------------------------------- PIN-EXTRACT
